@@ -260,6 +260,9 @@ def run(ck):
                 splits = [rng.choice([1, 2, 3, 5, 7, 8, 9, 16]) for _ in range(rng.randint(1, 5))]
                 gap = rng.choice([0, 200, 1500])
         cases.append([tmo, head, fill, rng.randrange(1 << 30), splits, gap, rng.choice([1, 3, 16, 64, 4096, 65536]) if fill < 100000 else rng.choice([512, 4096, 65536]), silent])
+    # the sniff deadline must be lifted once matched: the payload arrives after it would have fired
+    for m in ("PLAY rtsp://h/x RTSP/1.0\r\nCSeq: 1\r\n\r\n", "POST /upload HTTP/1.1\r\nHost: x\r\n\r\n"):
+        cases.append([120, m.encode(), 2000, 7, [len(m)], 250000, 512, rng.random() < 0.5])
     # a silent connection that sent nothing must be closed at the sniff timeout
     cases.append([120, b"", 0, 0, [], 0, 16, True])
     cases.append([120, b"GET /\r\n", 0, 0, [], 0, 16, True])
